@@ -460,4 +460,32 @@ example : unpackFromRaw [0x40, 1, 2, 3, 4, 5, 6, 0xFF] = .ok ⟨0x0102, 0x030405
 example : unpackFromRaw [0x44, 0, 0, 0, 0, 0, 0] = .error .value := by rfl
 example : unpackFromRaw [0x50, 0, 0, 0, 0, 0, 0] = .error .value := by rfl
 
+/-- the seven octets determine (days, ms): injective for every 16-bit day count and every 32-bit
+    millisecond value (consequence of `C14_roundtrip32`) -/
+theorem C14_octets_injective32 (a b : Stamp) (ad0 : 0 ≤ a.days) (ad : a.days < 65536)
+    (am0 : 0 ≤ a.ms) (am : a.ms < 4294967296) (bd0 : 0 ≤ b.days) (bd : b.days < 65536)
+    (bm0 : 0 ≤ b.ms) (bm : b.ms < 4294967296) (he : Spec.octets a = Spec.octets b) : a = b := by
+  have r1 := C14_roundtrip32 a ad0 ad am0 am []
+  have r2 := C14_roundtrip32 b bd0 bd bm0 bm []
+  rw [he, r2] at r1
+  cases r1; rfl
+
+/-- on the domain: timestamps with the same seven octets are the same (days, ms) pair -/
+theorem C14_octets_injective (a b : Stamp) (wa : WF a) (wb : WF b)
+    (he : Spec.octets a = Spec.octets b) : a = b := by
+  have r1 := C14_roundtrip a wa []
+  have r2 := C14_roundtrip b wb []
+  rw [he, r2] at r1
+  cases r1; rfl
+
+/-- the same for `pack()` itself, as an iff: timestamps of the domain are equal iff they pack to the
+    same octets -/
+theorem C14_pack_injective (a b : Stamp) (wa : WF a) (wb : WF b) : a.pack = b.pack ↔ a = b := by
+  refine ⟨fun he => ?_, fun he => by rw [he]⟩
+  rw [C14_pack_exact a wa, C14_pack_exact b wb] at he
+  exact C14_octets_injective a b wa wb (Except.ok.inj he)
+
+-- non-vacuity of the injectivity statements: distinct members of the domain, distinct octets
+example : WF ⟨1, 0⟩ ∧ WF ⟨0, 1⟩ ∧ Spec.octets ⟨1, 0⟩ ≠ Spec.octets ⟨0, 1⟩ := by decide
+
 end SpVerif.Props.C14
